@@ -168,8 +168,12 @@ def run(rep, tier, root=None):
                       "stencil_length = %s" % nf(slv), init.where())
     # ---- S7 the recursion matrices are the exact ones on every construction path (necessary for the von Karman covariance to
     #         be the stationary covariance of the row recursion); S8 no state shared between instances
+    from .c04 import row_synthesis_rules
     for cname in ("PhaseScreenVonKarman", "PhaseScreenKolmogorov"):
         cls = ix.cls(MOD, cname)
+        # every step of the recursion reads the rows the previous step produced (a cached view of an earlier screen would keep the
+        # one-row shift, the shape and the finiteness, and lose the stationary covariance from the second step on)
+        row_synthesis_rules(rep, ix, cls, cname, cls.fq, A("nx_size", "int"))
         m, I, o, paths = run_method(ix, cls, "makeAMatrix")
         a_ = o.attrs.get("A_mat")
         want = Rat.atom(Fn("dot", (A("cov_mat_xz"), Rat.atom(Fn("inv", (A("cov_mat_zz"),))))))
